@@ -104,6 +104,10 @@ class MetaEval(Evaluator):
                     return a_
                 if a_ == Poly.sym("NENT"):
                     return b_
+            if nm == "len" and len(e.args) == 1 and isinstance(e.args[0], ast.Name) and e.args[0].id in getattr(self, "range_lens", {}):
+                return self.range_lens[e.args[0].id]
+            if nm == "len" and len(e.args) == 1 and isinstance(e.args[0], ast.Call) and call_name(e.args[0]) == "range" and len(e.args[0].args) == 2:
+                return self.ev(e.args[0].args[1]) - self.ev(e.args[0].args[0])
             if nm == "_get_nchannels_from_meta":
                 return Poly.sym("NC")
             if nm == "_get_max_int_from_meta":
@@ -406,6 +410,23 @@ class SegExtractor(Extractor):
 
     def _entries_vector(self, e: ast.AST, node) -> Optional[ArrVal]:
         """np.array([f(g) for g in ENTRIES]) - one value per IMRO entry."""
+        if isinstance(e, (ast.ListComp, ast.GeneratorExp)) and len(e.generators) == 1 and isinstance(e.generators[0].target, ast.Tuple) \
+                and all(isinstance(t_, ast.Name) for t_ in e.generators[0].target.elts) and getattr(self.ev, "group_fields", None) \
+                and len(self.ev.group_fields) == len(e.generators[0].target.elts):
+            # the entries are tuples of captured groups: `for ap, lf in ENTRIES` binds each name to the field its group captures
+            cnt = self._entries(e.generators[0].iter)
+            if cnt is None:
+                return None
+            saved = dict(self.ev.env)
+            try:
+                for t_, fld in zip(e.generators[0].target.elts, self.ev.group_fields):
+                    self.ev.env[t_.id] = Poly.sym(f"G{fld}")
+                p = self.ev.ev(e.elt)
+            except Undecided:
+                return None
+            finally:
+                self.ev.env = saved
+            return ArrVal(cnt, [Event(Poly.const(0), cnt, self.tag(p, True), Poly.const(0), None, node)])
         if isinstance(e, (ast.ListComp, ast.GeneratorExp)) and len(e.generators) == 1 and isinstance(e.generators[0].target, ast.Name):
             cnt = self._entries(e.generators[0].iter)
             if cnt is None:
@@ -511,6 +532,14 @@ class SegExtractor(Extractor):
     def step(self, s: ast.stmt):
         if self._first_entry_fields(s):
             return
+        if isinstance(s, ast.Assign) and len(s.targets) == 1 and isinstance(s.targets[0], ast.Name) and isinstance(s.value, ast.Call) and call_name(s.value) == "range" \
+                and len(s.value.args) == 2:
+            # a range held in a local (the sync trace indices): only its length matters to the conversion vectors
+            try:
+                self.ev.range_lens = dict(getattr(self.ev, "range_lens", {}), **{s.targets[0].id: self.ev.ev(s.value.args[1]) - self.ev.ev(s.value.args[0])})
+                return
+            except Undecided:
+                pass
         if isinstance(s, (ast.Assign, ast.Return, ast.AugAssign)):
             s = self._resolve_ifexp(s)
         if isinstance(s, ast.Assign) and len(s.targets) == 1 and isinstance(s.targets[0], (ast.Tuple, ast.List)) \
